@@ -1,7 +1,7 @@
 CFG = {
-        "gen": [],
-        "props": ["EraVerif.Props.C12"],
-        "required_theorems": [
+        "gen": ["PoolFns"],
+        "props": ["EraVerif.Props.C12", "EraVerif.Props.C12gen"],
+        "required_theorems": ["gen_insert_eq", "gen_remove_eq", 
             "gossip_inbound_accept_iff", "gossip_outbound_accept_iff", "consensus_inbound_accept_iff",
             "consensus_outbound_accept_iff", "accept_requires", "signature_over_other_session_refused",
             "signature_by_other_key_refused", "other_genesis_refused", "unexpected_peer_refused",
@@ -13,7 +13,7 @@ CFG = {
             "insert_ok_iff", "remove_never_underflows", "remove_restores_quota", "pool_refines_spec",
             "validator_net_admits_committee_only", "gossip_net_quota", "one_connection_per_key_per_direction",
             "admitted_only_after_authentication", "refused_duplicate_keeps_existing"],
-        "technique": "Lean 4 theorems (all inputs / all call sequences / all sets of concurrent runs) over executable models of "
+        "technique": "PoolWatch::insert / remove regenerated from pool.rs on every run (tools/translate_pool.py -> Gen/PoolFns) and proved equal to the model's (Props/C12gen); Lean 4 theorems (all inputs / all call sequences / all sets of concurrent runs) over executable models of "
                      "the four handshake functions, PoolWatch and the admission paths + differential run of the real code "
                      "(real Noise sessions over loopback TCP, real keys) against the models",
         "level_text": "PARTIAL (modulo symbolic cryptography and one known exception). Proved on the models: (1) for each of "
